@@ -1655,11 +1655,17 @@ func (p *parser) parseTypeScriptNamespaceStmt(loc logger.Loc, opts parseStmtOpts
 	if p.lexer.Token == js_lexer.TDot {
 		dotLoc := p.lexer.Loc()
 		p.lexer.Next()
-		stmts = []js_ast.Stmt{p.parseTypeScriptNamespaceStmt(dotLoc, parseStmtOpts{
+		stmt := p.parseTypeScriptNamespaceStmt(dotLoc, parseStmtOpts{
 			isExport:            true,
 			isNamespaceScope:    true,
 			isTypeScriptDeclare: opts.isTypeScriptDeclare,
-		})}
+		})
+
+		// A nested namespace without values is omitted, just like it is when
+		// it's written as "namespace a { export namespace b {} }"
+		if _, ok := stmt.Data.(*js_ast.STypeScript); !ok {
+			stmts = []js_ast.Stmt{stmt}
+		}
 	} else if opts.isTypeScriptDeclare && p.lexer.Token != js_lexer.TOpenBrace {
 		p.lexer.ExpectOrInsertSemicolon()
 	} else {
